@@ -100,6 +100,7 @@ Qed.
 Arguments aset {A} k v m : simpl never.
 Arguments adel {A} k m : simpl never.
 
+Ltac c_simpl := cbn [nodes binds n2p c2p npr panicked with_nodes with_binds with_n2p with_c2p with_npr upr_c panic].
 Ltac sn_simpl := cbn [update_for_pod cleanup_for_pod sn_pods sn_dsr sn_costs sn_vun sn_node sn_claim sn_marked fst snd].
 
 (* ================= well-formed API stores ================= *)
@@ -321,25 +322,29 @@ Proof.
     + apply negb_false_iff, rzero_true in C. rewrite C, radd_z3_r. reflexivity.
 Qed.
 
+Lemma adel_cons {A} X k (v : A) m : adel X ((k, v) :: m) = if X =s k then adel X m else (k, v) :: adel X m.
+Proof. unfold adel. simpl. destruct (X =s k); reflexivity. Qed.
+
+Lemma pool_total_cons pool k s m : pool_total pool ((k, s) :: m) = radd (contrib pool s) (pool_total pool m).
+Proof. reflexivity. Qed.
+
 Lemma pool_total_adel pool X (m : amap snode) : nodupk m ->
   pool_total pool (adel X m) = rsub (pool_total pool m) (ocontrib pool (aget X m)).
 Proof.
   unfold nodupk. induction m as [|[k s] m IH]; intros H; [reflexivity|].
-  inversion H; subst. cbn [pool_total fold_right aget snd]. unfold adel; cbn [filter fst].
-  destruct (X =s k) eqn:E; cbn [negb].
-  - seq. fold (adel k m). rewrite IH by assumption.
+  inversion H; subst. rewrite adel_cons, pool_total_cons. cbn [aget].
+  destruct (X =s k) eqn:E.
+  - seq. rewrite IH by assumption.
     assert (aget k m = None) as -> by (apply aget_none_notin; assumption).
-    cbn [ocontrib]. fold (pool_total pool m). match goal with |- ?g => idtac g end. res_crush.
-  - cbn [fold_right snd]. fold (adel X m). fold (pool_total pool (adel X m)). rewrite IH by assumption.
-    fold (pool_total pool m). generalize (ocontrib pool (aget X m)) (contrib pool s) (pool_total pool m).
-    intros. res_crush.
+    cbn [ocontrib]. generalize (contrib pool s) (pool_total pool m). intros. res_crush.
+  - rewrite pool_total_cons, IH by assumption.
+    generalize (ocontrib pool (aget X m)) (contrib pool s) (pool_total pool m). intros. res_crush.
 Qed.
 
 Lemma pool_total_aset pool X s (m : amap snode) : nodupk m ->
   pool_total pool (aset X s m) = radd (rsub (pool_total pool m) (ocontrib pool (aget X m))) (contrib pool s).
 Proof.
-  intros H. unfold aset. cbn [pool_total fold_right snd]. fold (pool_total pool (adel X m)).
-  rewrite pool_total_adel by assumption.
+  intros H. unfold aset. rewrite pool_total_cons, pool_total_adel by assumption.
   generalize (ocontrib pool (aget X m)) (contrib pool s) (pool_total pool m). intros. res_crush.
 Qed.
 
@@ -359,7 +364,7 @@ Qed.
 Lemma Npr_same_ident c X s s' : Npr c -> aget X (nodes c) = Some s -> ident s = ident s' ->
   Npr (with_nodes c (aset X s' (nodes c))).
 Proof.
-  intros [Hn Hp] Hs Hi. split; simpl; [apply nodupk_aset, Hn|].
+  intros [Hn Hp] Hs Hi. split; c_simpl; [apply nodupk_aset, Hn|].
   intros pool Hpool. rewrite pool_total_aset, Hs by assumption. cbn [ocontrib].
   rewrite (contrib_ident pool s s' Hi), (Hp pool Hpool).
   generalize (contrib pool s') (pool_total pool (nodes c)). intros. res_crush.
@@ -370,7 +375,7 @@ Lemma Npr_upr_set c X old s' : Npr c ->
   (forall pool, ocontrib pool old = ocontrib pool (aget X (nodes c))) ->
   Npr (with_nodes (upr_c old (Some s') c) (aset X s' (nodes c))).
 Proof.
-  intros [Hn Hp] Ho. split; simpl; [apply nodupk_aset, Hn|].
+  intros [Hn Hp] Ho. split; c_simpl; [apply nodupk_aset, Hn|].
   intros pool Hpool. rewrite upr_spec, pool_total_aset, (Hp pool Hpool), Ho by assumption. reflexivity.
 Qed.
 
@@ -378,7 +383,695 @@ Lemma Npr_upr_del c X old : Npr c ->
   (forall pool, ocontrib pool old = ocontrib pool (aget X (nodes c))) ->
   Npr (with_nodes (upr_c old None c) (adel X (nodes c))).
 Proof.
-  intros [Hn Hp] Ho. split; simpl; [apply nodupk_adel, Hn|].
+  intros [Hn Hp] Ho. split; c_simpl; [apply nodupk_adel, Hn|].
   intros pool Hpool. rewrite upr_spec, pool_total_adel, (Hp pool Hpool), Ho by assumption.
   cbn [ocontrib]. apply radd_z3_r.
+Qed.
+
+Definition oid (X : string) (c : cache) := option_map ident (aget X (nodes c)).
+
+Lemma ocontrib_oid pool o1 o2 : option_map ident o1 = option_map ident o2 -> ocontrib pool o1 = ocontrib pool o2.
+Proof.
+  destruct o1 as [s1|], o2 as [s2|]; simpl; try discriminate; [|reflexivity].
+  intros H. apply contrib_ident. congruence.
+Qed.
+
+Lemma contrib_new_node pool : contrib pool new_node = z3.
+Proof. reflexivity. Qed.
+
+Lemma oid_set_same X Y c s s' : aget Y (nodes c) = Some s -> ident s = ident s' ->
+  oid X (with_nodes c (aset Y s' (nodes c))) = oid X c.
+Proof.
+  intros Hs Hi. unfold oid. c_simpl. rewrite aget_aset. destruct (X =s Y) eqn:E; [|reflexivity].
+  seq. rewrite Hs. simpl. congruence.
+Qed.
+
+Lemma Npr_binds c m : Npr (with_binds c m) <-> Npr c. Proof. reflexivity. Qed.
+Lemma Npr_n2p c m : Npr (with_n2p c m) <-> Npr c. Proof. reflexivity. Qed.
+Lemma Npr_c2p c m : Npr (with_c2p c m) <-> Npr c. Proof. reflexivity. Qed.
+Lemma Npr_panic c : Npr (panic c) <-> Npr c. Proof. reflexivity. Qed.
+
+Lemma Npr_cob p c : Npr c -> Npr (cleanup_old_bindings p c).
+Proof.
+  intros H. unfold cleanup_old_bindings. destruct (aget (p_key p) (binds c)); [|exact H].
+  destruct (s =s p_node p); [exact H|].
+  destruct (aget (sget s (n2p c)) (nodes c)) eqn:E; [|exact H].
+  apply Npr_binds. eapply Npr_same_ident; eauto.
+Qed.
+
+Lemma oid_cob X p c : oid X (cleanup_old_bindings p c) = oid X c.
+Proof.
+  unfold cleanup_old_bindings. destruct (aget (p_key p) (binds c)); [|reflexivity].
+  destruct (s =s p_node p); [reflexivity|].
+  destruct (aget (sget s (n2p c)) (nodes c)) eqn:E; [|reflexivity].
+  change (oid X (with_nodes c (aset (sget s (n2p c)) (cleanup_for_pod (p_key p) s0) (nodes c))) = oid X c).
+  eapply oid_set_same; eauto.
+Qed.
+
+Lemma Npr_completion k c : Npr c -> Npr (pod_completion k c).
+Proof.
+  intros H. unfold pod_completion. destruct (aget k (binds c)); [|exact H].
+  destruct (aget (sget s (n2p c)) (nodes c)) eqn:E; [|exact H].
+  change (Npr (with_binds (with_nodes c (aset (sget s (n2p c)) (cleanup_for_pod k s0) (nodes c))) (adel k (binds c)))).
+  apply Npr_binds. eapply Npr_same_ident; eauto.
+Qed.
+
+Lemma Npr_update_pod p c : Npr c -> Npr (update_pod p c).
+Proof.
+  intros H. unfold update_pod. destruct (p_term p); [apply Npr_completion, H|].
+  destruct (p_node p =s ""); [exact H|].
+  destruct (aget (sget (p_node p) (n2p c)) (nodes c)) eqn:E; [|exact H].
+  unfold bind_pod. apply Npr_binds, Npr_cob. eapply Npr_same_ident; eauto.
+Qed.
+
+Lemma Npr_cleanup_node name c : Npr c -> Npr (cleanup_node name c).
+Proof.
+  intros H. unfold cleanup_node. destruct (sget name (n2p c) =s ""); [exact H|].
+  destruct (aget (sget name (n2p c)) (nodes c)) as [s|] eqn:E; [|exact H].
+  apply Npr_n2p. destruct (sn_claim s).
+  - apply Npr_upr_set; [exact H|]. intros pool. rewrite E. reflexivity.
+  - apply Npr_upr_del; [exact H|]. intros pool. rewrite E. reflexivity.
+Qed.
+
+Lemma Npr_cleanup_claim name c : Npr c -> Npr (cleanup_claim name c).
+Proof.
+  intros H. unfold cleanup_claim.
+  set (c1 := if sget name (c2p c) =s "" then c else _).
+  assert (H1 : Npr c1).
+  { unfold c1. destruct (sget name (c2p c) =s ""); [exact H|].
+    destruct (aget (sget name (c2p c)) (nodes c)) as [s|] eqn:E; [|exact H].
+    destruct (sn_node s).
+    - apply Npr_upr_set; [exact H|]. intros pool. rewrite E. reflexivity.
+    - apply Npr_upr_del; [exact H|]. intros pool. rewrite E. reflexivity. }
+  destruct (panicked c1); [exact H1|]. apply Npr_c2p, H1.
+Qed.
+
+Lemma oid_cleanup_node X name c : X <> sget name (n2p c) -> oid X (cleanup_node name c) = oid X c.
+Proof.
+  intros Hx. unfold cleanup_node. destruct (sget name (n2p c) =s ""); [reflexivity|].
+  destruct (aget (sget name (n2p c)) (nodes c)) as [s|] eqn:E; [|reflexivity].
+  unfold oid. destruct (sn_claim s); c_simpl.
+  - rewrite aget_aset_other by assumption. reflexivity.
+  - rewrite aget_adel_other by assumption. reflexivity.
+Qed.
+
+Lemma oid_cleanup_claim X name c : X <> sget name (c2p c) -> oid X (cleanup_claim name c) = oid X c.
+Proof.
+  intros Hx. unfold cleanup_claim.
+  set (c1 := if sget name (c2p c) =s "" then c else _).
+  assert (H1 : oid X c1 = oid X c).
+  { unfold c1. destruct (sget name (c2p c) =s ""); [reflexivity|].
+    destruct (aget (sget name (c2p c)) (nodes c)) as [s|] eqn:E; [|reflexivity].
+    unfold oid. destruct (sn_node s); c_simpl.
+    - rewrite aget_aset_other by assumption. reflexivity.
+    - rewrite aget_adel_other by assumption. reflexivity. }
+  destruct (panicked c1); exact H1.
+Qed.
+
+Lemma Npr_set_mark b c id : Npr c -> Npr (set_mark b c id).
+Proof.
+  intros H. unfold set_mark. destruct (aget id (nodes c)) as [s|] eqn:E; [|exact H].
+  apply Npr_upr_set; [exact H|]. intros pool. rewrite E. reflexivity.
+Qed.
+
+Lemma Npr_marks b ids c : Npr c -> Npr (fold_left (set_mark b) ids c).
+Proof. revert c. induction ids as [|i ids IH]; intros c H; simpl; [exact H|]. apply IH, Npr_set_mark, H. Qed.
+
+Lemma populate_snd name l s c :
+  Npr c -> Npr (snd (fold_left (populate_step name) l (s, c))) /\
+  forall X, oid X (snd (fold_left (populate_step name) l (s, c))) = oid X c.
+Proof.
+  revert s c. induction l as [|kp l IH]; intros s c H; simpl; [auto|].
+  unfold populate_step at 2 4. cbn [fst snd].
+  destruct ((p_node (snd kp) =s name) && negb (p_term (snd kp))).
+  - destruct (IH (update_for_pod s (snd kp)) (bind_pod (snd kp) (cleanup_old_bindings (snd kp) c))) as [H1 H2].
+    { unfold bind_pod. apply Npr_binds, Npr_cob, H. }
+    split; [exact H1|]. intros X. rewrite H2. unfold bind_pod.
+    change (oid X (cleanup_old_bindings (snd kp) c) = oid X c). apply oid_cob.
+  - apply IH, H.
+Qed.
+
+Lemma Npr_update_node a n c : Npr c -> Npr (update_node a n c).
+Proof.
+  intros H. unfold update_node. destruct (negb (trackable n)); [exact H|].
+  set (pid := epid n).
+  set (old := match aget pid (nodes c) with Some s => s | None => new_node end).
+  destruct (fold_left (populate_step (n_name n)) (a_pods a)
+              (mkSN (Some n) (sn_claim old) [] [] [] [] (sn_marked old), c)) as [n1 c1] eqn:EF.
+  pose proof (populate_snd (n_name n) (a_pods a) (mkSN (Some n) (sn_claim old) [] [] [] [] (sn_marked old)) c H) as [P1 P2].
+  rewrite EF in P1, P2. cbn [snd] in P1, P2.
+  set (c2 := match aget (n_name n) (n2p c1) with
+             | Some id => if id =s pid then c1 else cleanup_node (n_name n) c1
+             | None => c1 end).
+  assert (H2 : Npr c2 /\ oid pid c2 = oid pid c).
+  { unfold c2. destruct (aget (n_name n) (n2p c1)) as [id|] eqn:E; [|split; [exact P1|apply P2]].
+    destruct (id =s pid) eqn:E2; [split; [exact P1|apply P2]|].
+    split; [apply Npr_cleanup_node, P1|]. rewrite oid_cleanup_node; [apply P2|].
+    unfold sget. rewrite E. seq. congruence. }
+  destruct H2 as [H2 H3]. destruct (panicked c2); [exact H2|].
+  apply Npr_n2p. apply (Npr_upr_set c2 pid (Some old) n1); [exact H2|].
+  intros pool. unfold oid in H3.
+  transitivity (ocontrib pool (aget pid (nodes c))); [|apply ocontrib_oid; symmetry; exact H3].
+  unfold old. destruct (aget pid (nodes c)); reflexivity.
+Qed.
+
+Lemma Npr_update_claim cc cl c : Npr c -> Npr (update_claim_gen cc cl c).
+Proof.
+  intros H. unfold update_claim_gen.
+  set (c1 := if c_pid cl =s "" then c else _).
+  assert (H1 : Npr c1).
+  { unfold c1. destruct (c_pid cl =s "") eqn:Ep; [exact H|].
+    set (old := match aget (c_pid cl) (nodes c) with Some s => s | None => new_node end).
+    set (c' := match aget (c_name cl) (c2p c) with
+               | Some id => if id =s c_pid cl then c else cleanup_claim (c_name cl) c
+               | None => c end).
+    assert (H2 : Npr c' /\ oid (c_pid cl) c' = oid (c_pid cl) c).
+    { unfold c'. destruct (aget (c_name cl) (c2p c)) as [id|] eqn:E; [|auto].
+      destruct (id =s c_pid cl) eqn:E2; [auto|].
+      split; [apply Npr_cleanup_claim, H|]. apply oid_cleanup_claim. unfold sget. rewrite E. seq. congruence. }
+    destruct H2 as [H2 H3]. destruct (panicked c'); [exact H2|].
+    apply (Npr_upr_set c' (c_pid cl) (Some old)); [exact H2|]. intros pool. unfold oid in H3.
+    transitivity (ocontrib pool (aget (c_pid cl) (nodes c))); [|apply ocontrib_oid; symmetry; exact H3].
+    unfold old. destruct (aget (c_pid cl) (nodes c)); reflexivity. }
+  destruct (panicked c1); [exact H1|]. apply Npr_c2p, H1.
+Qed.
+
+Lemma Npr_step cc a c o : Npr c -> Npr (cache_step_gen cc a c o).
+Proof.
+  intros H. unfold cache_step_gen. destruct (panicked c); [exact H|].
+  destruct o; try exact H.
+  - unfold deliver_node. destruct (aget name (a_nodes a)); [apply Npr_update_node, H|apply Npr_cleanup_node, H].
+  - unfold deliver_claim_gen. destruct (aget name (a_claims a)); [apply Npr_update_claim, H|apply Npr_cleanup_claim, H].
+  - unfold deliver_pod. destruct (aget key (a_pods a)); [apply Npr_update_pod, H|apply Npr_completion, H].
+  - apply Npr_marks, H.
+  - apply Npr_marks, H.
+Qed.
+
+Lemma Npr_0 : Npr cache0.
+Proof. split; [constructor|]. intros pool _. reflexivity. Qed.
+
+Lemma Npr_run_from cc ops s : Npr (snd s) -> Npr (snd (fold_left (step_gen cc) ops s)).
+Proof.
+  revert s. induction ops as [|o ops IH]; intros s H; simpl; [exact H|].
+  apply IH. unfold step_gen. cbn [snd]. apply Npr_step, H.
+Qed.
+
+(* for every history: each pool's cached total is the sum over the cached StateNodes *)
+Lemma npr_invariant_l : forall (ops : list op) (pool : string), pool <> "" ->
+  rget pool (npr (snd (run ops))) = pool_total pool (nodes (snd (run ops))).
+Proof. intros ops. apply (Npr_run_from true ops (api0, cache0) Npr_0). Qed.
+
+(* ================= a Node delivery rebuilds the node's aggregates from the API pod list ================= *)
+Definition rebuilt (a : api) (name : string) (s : snode) : Prop :=
+  (forall key, aget key (sn_pods s) = option_map pent_of (pod_on a name key)) /\
+  (forall key, aget key (sn_dsr s) =
+     match pod_on a name key with Some p => if p_ds p then Some (p_req p, p_lim p) else None | None => None end) /\
+  (forall key, aget key (sn_costs s) =
+     match pod_on a name key with
+     | Some p => if negb (p_ds p) && (0 <? p_cost p) then Some (p_cost p) else None
+     | None => None end) /\
+  (forall v, mem v (sn_vun s) =
+     existsb (fun kp => match pod_on a name (fst kp) with Some p => mem v (p_vols p) | None => false end) (a_pods a)).
+
+Lemma pod_on_lookup a name key : pod_on a name key = lookup_on name key (a_pods a).
+Proof. reflexivity. Qed.
+
+Lemma existsb_ext_in {A} (f g : A -> bool) l : (forall x, In x l -> f x = g x) -> existsb f l = existsb g l.
+Proof.
+  induction l as [|x l IH]; intros H; simpl; [reflexivity|].
+  rewrite H by (left; reflexivity). rewrite IH; [reflexivity|]. intros y Hy. apply H. right; exact Hy.
+Qed.
+
+Lemma populated_rebuilt a name n0 :
+  keyed p_key (a_pods a) -> sn_pods n0 = [] -> sn_dsr n0 = [] -> sn_costs n0 = [] -> sn_vun n0 = [] ->
+  rebuilt a name (fold_left (pop_sn name) (a_pods a) n0).
+Proof.
+  intros Hk E1 E2 E3 E4. repeat split.
+  - intros key. rewrite pop_pods, E1, pod_on_lookup by assumption.
+    destruct (lookup_on name key (a_pods a)); reflexivity.
+  - intros key. rewrite pop_dsr, E2, pod_on_lookup by assumption.
+    destruct (lookup_on name key (a_pods a)) as [p|]; [|reflexivity]. destruct (p_ds p); reflexivity.
+  - intros key. rewrite pop_costs, E3, pod_on_lookup by assumption.
+    destruct (lookup_on name key (a_pods a)) as [p|]; [|reflexivity]. destruct (p_ds p); reflexivity.
+  - intros v. rewrite pop_vun, E4. cbn [mem existsb orb]. apply existsb_ext_in.
+    intros [k p] Hin. cbn [fst snd]. unfold pod_on.
+    rewrite (in_aget k p (a_pods a) (proj1 Hk) Hin).
+    fold (on_node name p). destruct (on_node name p); reflexivity.
+Qed.
+
+Lemma update_node_entry a n c : api_wf a -> trackable n = true -> panicked (update_node a n c) = false ->
+  exists s, aget (epid n) (nodes (update_node a n c)) = Some s /\
+            sn_node s = Some n /\
+            sn_claim s = match aget (epid n) (nodes c) with Some o => sn_claim o | None => None end /\
+            sn_marked s = match aget (epid n) (nodes c) with Some o => sn_marked o | None => false end /\
+            rebuilt a (n_name n) s /\
+            aget (n_name n) (n2p (update_node a n c)) = Some (epid n).
+Proof.
+  intros (_ & _ & Hk) Ht. unfold update_node. rewrite Ht. cbn [negb].
+  set (old := match aget (epid n) (nodes c) with Some s => s | None => new_node end).
+  set (n0 := mkSN (Some n) (sn_claim old) [] [] [] [] (sn_marked old)).
+  pose proof (fst_populate (n_name n) (a_pods a) n0 c) as HF.
+  destruct (fold_left (populate_step (n_name n)) (a_pods a) (n0, c)) as [n1 c1]. cbn [fst] in HF.
+  set (c2 := match aget (n_name n) (n2p c1) with
+             | Some id => if id =s epid n then c1 else cleanup_node (n_name n) c1
+             | None => c1 end).
+  destruct (panicked c2) eqn:P; [intros HH; cbv iota in HH; congruence|]. intros _.
+  exists n1. c_simpl. rewrite !aget_aset_same.
+  destruct (pop_ident (n_name n) (a_pods a) n0) as (I1 & I2 & I3).
+  rewrite <- HF in I1, I2, I3. rewrite I1, I2, I3. subst n0 old. cbn [sn_node sn_claim sn_marked].
+  repeat split.
+  - destruct (aget (epid n) (nodes c)); reflexivity.
+  - destruct (aget (epid n) (nodes c)); reflexivity.
+  - rewrite HF. apply populated_rebuilt; auto.
+  - rewrite HF. apply populated_rebuilt; auto.
+  - rewrite HF. apply populated_rebuilt; auto.
+  - rewrite HF. apply populated_rebuilt; auto.
+Qed.
+
+(* ================= a NodeClaim delivery carries the aggregates over ================= *)
+Definition aggregates (s : snode) := (sn_pods s, sn_dsr s, sn_costs s, sn_vun s).
+
+Lemma update_claim_entry cl c : c_pid cl <> "" -> panicked (update_claim cl c) = false ->
+  exists s, aget (c_pid cl) (nodes (update_claim cl c)) = Some s /\
+            sn_claim s = Some cl /\
+            sn_node s = match aget (c_pid cl) (nodes c) with Some o => sn_node o | None => None end /\
+            sn_marked s = match aget (c_pid cl) (nodes c) with Some o => sn_marked o | None => false end /\
+            aggregates s = match aget (c_pid cl) (nodes c) with Some o => aggregates o | None => ([], [], [], []) end /\
+            aget (c_name cl) (c2p (update_claim cl c)) = Some (c_pid cl).
+Proof.
+  intros Hp. unfold update_claim, update_claim_gen. apply String.eqb_neq in Hp. rewrite Hp.
+  set (old := match aget (c_pid cl) (nodes c) with Some s => s | None => new_node end).
+  set (c' := match aget (c_name cl) (c2p c) with
+             | Some id => if id =s c_pid cl then c else cleanup_claim (c_name cl) c
+             | None => c end).
+  destruct (panicked c') eqn:P1; [intros HH; cbv iota in HH; rewrite P1 in HH; cbv iota in HH; congruence|].
+  c_simpl. rewrite P1. intros _. c_simpl. rewrite !aget_aset_same.
+  eexists. split; [reflexivity|]. unfold aggregates. subst old. cbn [sn_node sn_claim sn_marked sn_pods sn_dsr sn_costs sn_vun].
+  repeat split; destruct (aget (c_pid cl) (nodes c)); reflexivity.
+Qed.
+
+(* ================= the closing round: coherence of the cache with a fixed API state ================= *)
+Definition uniq_pids (a : api) : Prop :=
+  (forall m1 m2 n1 n2, aget m1 (a_nodes a) = Some n1 -> aget m2 (a_nodes a) = Some n2 ->
+     trackable n1 = true -> trackable n2 = true -> epid n1 = epid n2 -> m1 = m2) /\
+  (forall k1 k2 c1 c2, aget k1 (a_claims a) = Some c1 -> aget k2 (a_claims a) = Some c2 ->
+     c_pid c1 <> "" -> c_pid c1 = c_pid c2 -> k1 = k2) /\
+  (forall m n, aget m (a_nodes a) = Some n -> m <> "").
+
+Definition api_ok (a : api) : Prop := api_wf a /\ uniq_pids a.
+
+Definition empty_agg (s : snode) : Prop := sn_pods s = [] /\ sn_dsr s = [] /\ sn_costs s = [] /\ sn_vun s = [].
+
+(* identity layer: which Node / NodeClaim object sits under which provider id, and the two name maps *)
+Record CohI (a : api) (c : cache) : Prop := {
+  ci_np : panicked c = false;
+  ci_n2p : forall m X, aget m (n2p c) = Some X ->
+             X <> "" /\ exists s nd, aget X (nodes c) = Some s /\ sn_node s = Some nd /\ n_name nd = m;
+  ci_nback : forall X s nd, aget X (nodes c) = Some s -> sn_node s = Some nd -> aget (n_name nd) (n2p c) = Some X;
+  ci_c2p : forall k X, aget k (c2p c) = Some X -> X <> "" ->
+             exists s cl, aget X (nodes c) = Some s /\ sn_claim s = Some cl /\ c_name cl = k;
+  ci_cback : forall X s cl, aget X (nodes c) = Some s -> sn_claim s = Some cl -> aget (c_name cl) (c2p c) = Some X;
+  ci_ident : forall X s, aget X (nodes c) = Some s -> has_identity s = true;
+  ci_keys : forall X s, aget X (nodes c) = Some s -> X <> "";
+  (* relative to the API: provider ids are not handed to another name, tracked names stay trackable,
+     launched claims stay launched *)
+  ci_own_n : forall m X nd m', aget m (n2p c) = Some X -> aget m' (a_nodes a) = Some nd ->
+               trackable nd = true -> epid nd = X -> m' = m;
+  ci_own_c : forall k X cl k', aget k (c2p c) = Some X -> X <> "" -> aget k' (a_claims a) = Some cl ->
+               c_pid cl = X -> k' = k;
+  ci_track : forall m X nd, aget m (n2p c) = Some X -> aget m (a_nodes a) = Some nd -> trackable nd = true;
+  ci_launched : forall k X cl, aget k (c2p c) = Some X -> X <> "" -> aget k (a_claims a) = Some cl -> c_pid cl <> ""
+}.
+
+Lemma ci_n2p_inj a c m m' X : CohI a c -> aget m (n2p c) = Some X -> aget m' (n2p c) = Some X -> m = m'.
+Proof.
+  intros H H1 H2. destruct (ci_n2p _ _ H _ _ H1) as (_ & s & nd & E1 & E2 & E3).
+  destruct (ci_n2p _ _ H _ _ H2) as (_ & s' & nd' & E1' & E2' & E3'). congruence.
+Qed.
+
+Lemma ci_c2p_inj a c k k' X : CohI a c -> X <> "" -> aget k (c2p c) = Some X -> aget k' (c2p c) = Some X -> k = k'.
+Proof.
+  intros H Hx H1 H2. destruct (ci_c2p _ _ H _ _ H1 Hx) as (s & cl & E1 & E2 & E3).
+  destruct (ci_c2p _ _ H _ _ H2 Hx) as (s' & cl' & E1' & E2' & E3'). congruence.
+Qed.
+
+(* transformations that keep every entry's identity and the name maps keep CohI *)
+Definition same_ids (c c' : cache) : Prop :=
+  panicked c' = panicked c /\ n2p c' = n2p c /\ c2p c' = c2p c /\ forall X, oid X c' = oid X c.
+
+Lemma same_ids_refl c : same_ids c c.
+Proof. unfold same_ids. auto. Qed.
+
+Lemma same_ids_trans c1 c2 c3 : same_ids c1 c2 -> same_ids c2 c3 -> same_ids c1 c3.
+Proof.
+  intros (A1 & A2 & A3 & A4) (B1 & B2 & B3 & B4).
+  split; [congruence|split; [congruence|split; [congruence|]]]. intros X. rewrite B4. apply A4.
+Qed.
+
+Lemma oid_some X c c' s : oid X c' = oid X c -> aget X (nodes c') = Some s ->
+  exists s0, aget X (nodes c) = Some s0 /\ ident s0 = ident s.
+Proof.
+  unfold oid. intros H E. rewrite E in H. destruct (aget X (nodes c)) as [s0|]; [|discriminate].
+  exists s0. split; [reflexivity|]. simpl in H. congruence.
+Qed.
+
+Lemma ident_fields s s' : ident s = ident s' ->
+  sn_node s = sn_node s' /\ sn_claim s = sn_claim s' /\ sn_marked s = sn_marked s'.
+Proof. unfold ident. intros [= -> -> ->]. auto. Qed.
+
+Lemma has_identity_ident s s' : ident s = ident s' -> has_identity s = has_identity s'.
+Proof. intros H. destruct (ident_fields _ _ H) as (H1 & H2 & _). unfold has_identity. rewrite H1, H2. reflexivity. Qed.
+
+Lemma CohI_same_ids a c c' : same_ids c c' -> CohI a c -> CohI a c'.
+Proof.
+  intros (P & N & C & O) H.
+  assert (Sym : forall X, oid X c = oid X c') by (intros; symmetry; apply O).
+  constructor.
+  - rewrite P. apply H.
+  - intros m X E. rewrite N in E. destruct (ci_n2p _ _ H _ _ E) as (Hx & s & nd & E1 & E2 & E3).
+    split; [exact Hx|]. destruct (oid_some X c' c s (Sym X) E1) as (s' & E1' & Hi).
+    destruct (ident_fields _ _ Hi) as (F1 & _). exists s', nd. repeat split; congruence.
+  - intros X s nd E1 E2. destruct (oid_some X c c' s (O X) E1) as (s0 & E0 & Hi).
+    destruct (ident_fields _ _ Hi) as (F1 & _). rewrite N. eapply (ci_nback _ _ H); eauto. congruence.
+  - intros k X E Hx. rewrite C in E. destruct (ci_c2p _ _ H _ _ E Hx) as (s & cl & E1 & E2 & E3).
+    destruct (oid_some X c' c s (Sym X) E1) as (s' & E1' & Hi).
+    destruct (ident_fields _ _ Hi) as (_ & F2 & _). exists s', cl. repeat split; congruence.
+  - intros X s cl E1 E2. destruct (oid_some X c c' s (O X) E1) as (s0 & E0 & Hi).
+    destruct (ident_fields _ _ Hi) as (_ & F2 & _). rewrite C. eapply (ci_cback _ _ H); eauto. congruence.
+  - intros X s E1. destruct (oid_some X c c' s (O X) E1) as (s0 & E0 & Hi).
+    rewrite <- (has_identity_ident _ _ Hi). eapply (ci_ident _ _ H); eauto.
+  - intros X s E1. destruct (oid_some X c c' s (O X) E1) as (s0 & E0 & Hi). eapply (ci_keys _ _ H); eauto.
+  - intros m X nd m' E. rewrite N in E. eapply (ci_own_n _ _ H); eauto.
+  - intros k X cl k' E. rewrite C in E. eapply (ci_own_c _ _ H); eauto.
+  - intros m X nd E. rewrite N in E. eapply (ci_track _ _ H); eauto.
+  - intros k X cl E. rewrite C in E. eapply (ci_launched _ _ H); eauto.
+Qed.
+
+Lemma same_ids_cob p c : same_ids c (cleanup_old_bindings p c).
+Proof.
+  split; [|split; [|split; [|intros X; apply oid_cob]]];
+  unfold cleanup_old_bindings; destruct (aget (p_key p) (binds c)); try reflexivity;
+  destruct (s =s p_node p); try reflexivity; destruct (aget (sget s (n2p c)) (nodes c)); reflexivity.
+Qed.
+
+Lemma same_ids_binds c m : same_ids c (with_binds c m).
+Proof. unfold same_ids. auto. Qed.
+
+Lemma same_ids_set c Y s s' : aget Y (nodes c) = Some s -> ident s = ident s' ->
+  same_ids c (with_nodes c (aset Y s' (nodes c))).
+Proof.
+  intros E Hi. split; [|split; [|split]]; try reflexivity. intros X. eapply oid_set_same; eauto.
+Qed.
+
+Lemma same_ids_completion k c : same_ids c (pod_completion k c).
+Proof.
+  unfold pod_completion. destruct (aget k (binds c)); [|apply same_ids_refl].
+  destruct (aget (sget s (n2p c)) (nodes c)) eqn:E; [|apply same_ids_binds].
+  eapply same_ids_trans; [|apply (same_ids_set c _ s0 (cleanup_for_pod k s0) E); reflexivity].
+  apply same_ids_refl.
+Qed.
+
+Lemma same_ids_update_pod p c : same_ids c (update_pod p c).
+Proof.
+  unfold update_pod. destruct (p_term p); [apply same_ids_completion|].
+  destruct (p_node p =s ""); [apply same_ids_refl|].
+  destruct (aget (sget (p_node p) (n2p c)) (nodes c)) eqn:E; [|apply same_ids_refl].
+  eapply same_ids_trans; [apply (same_ids_set c _ s (update_for_pod s p) E); reflexivity|].
+  eapply same_ids_trans; [apply same_ids_cob|]. apply same_ids_binds.
+Qed.
+
+Lemma same_ids_populate name l s c : same_ids c (snd (fold_left (populate_step name) l (s, c))).
+Proof.
+  revert s c. induction l as [|kp l IH]; intros s c; simpl; [apply same_ids_refl|].
+  unfold populate_step at 2. cbn [fst snd].
+  destruct ((p_node (snd kp) =s name) && negb (p_term (snd kp))); [|apply IH].
+  eapply same_ids_trans; [|apply IH].
+  eapply same_ids_trans; [apply same_ids_cob|]. apply same_ids_binds.
+Qed.
+
+(* ---- cleanupNode ---- *)
+Lemma cleanup_node_none name c : aget name (n2p c) = None -> cleanup_node name c = c.
+Proof. intros E. unfold cleanup_node, sget. rewrite E. reflexivity. Qed.
+
+Definition drop_node (s : snode) : snode :=
+  mkSN None (sn_claim s) (sn_pods s) (sn_dsr s) (sn_costs s) (sn_vun s) (sn_marked s).
+Definition drop_claim (s : snode) : snode :=
+  mkSN (sn_node s) None (sn_pods s) (sn_dsr s) (sn_costs s) (sn_vun s) (sn_marked s).
+
+Lemma cleanup_node_some a c name X : CohI a c -> aget name (n2p c) = Some X ->
+  exists s nd, aget X (nodes c) = Some s /\ sn_node s = Some nd /\ n_name nd = name /\
+    cleanup_node name c =
+    with_n2p (match sn_claim s with
+              | None => with_nodes (upr_c (Some s) None c) (adel X (nodes c))
+              | Some _ => with_nodes (upr_c (Some s) (Some (drop_node s)) c) (aset X (drop_node s) (nodes c))
+              end) (adel name (n2p c)).
+Proof.
+  intros H E. destruct (ci_n2p _ _ H _ _ E) as (Hx & s & nd & E1 & E2 & E3).
+  exists s, nd. repeat split; try assumption.
+  unfold cleanup_node, sget. rewrite E. apply String.eqb_neq in Hx. rewrite Hx, E1.
+  destruct (sn_claim s) eqn:EC; [unfold drop_node; rewrite EC|]; reflexivity.
+Qed.
+
+Lemma CohI_cleanup_node a c name : CohI a c -> CohI a (cleanup_node name c).
+Proof.
+  intros H. destruct (aget name (n2p c)) as [X|] eqn:E; [|rewrite cleanup_node_none; assumption].
+  destruct (cleanup_node_some a c name X H E) as (s & nd & E1 & E2 & E3 & ->).
+  assert (Other : forall m' X', m' <> name -> aget m' (n2p c) = Some X' -> X' <> X).
+  { intros m' X' Hm E' ->. apply Hm. eapply ci_n2p_inj; eauto. }
+  destruct (sn_claim s) as [cl|] eqn:EC.
+  - (* the NodeClaim keeps the entry *)
+    constructor; c_simpl.
+    + apply H.
+    + intros m' X'. rewrite aget_adel. destruct (m' =s name) eqn:Em; [discriminate|]. seq. intros E'.
+      destruct (ci_n2p _ _ H _ _ E') as (Hx' & s' & nd' & F1 & F2 & F3). split; [exact Hx'|].
+      exists s', nd'. rewrite aget_aset_other by (eapply Other; eauto). auto.
+    + intros X' s' nd'. rewrite aget_aset. destruct (X' =s X) eqn:Ex; seq.
+      * intros [= <-]. discriminate.
+      * intros F1 F2. rewrite aget_adel_other; [eapply (ci_nback _ _ H); eauto|].
+        intros Hn. pose proof (ci_nback _ _ H _ _ _ F1 F2) as Hb. rewrite Hn in Hb. congruence.
+    + intros k X' F Hx'. destruct (ci_c2p _ _ H _ _ F Hx') as (s' & cl' & F1 & F2 & F3).
+      rewrite aget_aset. destruct (X' =s X) eqn:Ex; seq.
+      * exists (drop_node s), cl'. repeat split; [|exact F3]. simpl. congruence.
+      * exists s', cl'. auto.
+    + intros X' s' cl'. rewrite aget_aset. destruct (X' =s X) eqn:Ex; seq.
+      * intros [= <-]. simpl. intros F. eapply (ci_cback _ _ H); eauto.
+      * eapply (ci_cback _ _ H).
+    + intros X' s'. rewrite aget_aset. destruct (X' =s X) eqn:Ex; seq.
+      * intros [= <-]. unfold has_identity. simpl. rewrite EC. reflexivity.
+      * eapply (ci_ident _ _ H).
+    + intros X' s'. rewrite aget_aset. destruct (X' =s X) eqn:Ex; seq.
+      * intros _. eapply (ci_keys _ _ H); eauto.
+      * eapply (ci_keys _ _ H).
+    + intros m' X' nd' m''. rewrite aget_adel. destruct (m' =s name); [discriminate|]. eapply (ci_own_n _ _ H).
+    + eapply (ci_own_c _ _ H).
+    + intros m' X' nd'. rewrite aget_adel. destruct (m' =s name); [discriminate|]. eapply (ci_track _ _ H).
+    + eapply (ci_launched _ _ H).
+  - (* the entry goes away *)
+    constructor; c_simpl.
+    + apply H.
+    + intros m' X'. rewrite aget_adel. destruct (m' =s name) eqn:Em; [discriminate|]. seq. intros E'.
+      destruct (ci_n2p _ _ H _ _ E') as (Hx' & s' & nd' & F1 & F2 & F3). split; [exact Hx'|].
+      exists s', nd'. rewrite aget_adel_other by (eapply Other; eauto). auto.
+    + intros X' s' nd'. rewrite aget_adel. destruct (X' =s X) eqn:Ex; seq; [discriminate|].
+      intros F1 F2. rewrite aget_adel_other; [eapply (ci_nback _ _ H); eauto|].
+      intros Hn. pose proof (ci_nback _ _ H _ _ _ F1 F2) as Hb. rewrite Hn in Hb. congruence.
+    + intros k X' F Hx'. destruct (ci_c2p _ _ H _ _ F Hx') as (s' & cl' & F1 & F2 & F3).
+      exists s', cl'. rewrite aget_adel_other; [auto|]. intros ->. congruence.
+    + intros X' s' cl'. rewrite aget_adel. destruct (X' =s X); [discriminate|]. eapply (ci_cback _ _ H).
+    + intros X' s'. rewrite aget_adel. destruct (X' =s X); [discriminate|]. eapply (ci_ident _ _ H).
+    + intros X' s'. rewrite aget_adel. destruct (X' =s X); [discriminate|]. eapply (ci_keys _ _ H).
+    + intros m' X' nd' m''. rewrite aget_adel. destruct (m' =s name); [discriminate|]. eapply (ci_own_n _ _ H).
+    + eapply (ci_own_c _ _ H).
+    + intros m' X' nd'. rewrite aget_adel. destruct (m' =s name); [discriminate|]. eapply (ci_track _ _ H).
+    + eapply (ci_launched _ _ H).
+Qed.
+
+(* ---- cleanupNodeClaim ---- *)
+Lemma cleanup_claim_unlaunched name c : sget name (c2p c) = "" ->
+  cleanup_claim name c = if panicked c then c else with_c2p c (adel name (c2p c)).
+Proof. intros E. unfold cleanup_claim. rewrite E. reflexivity. Qed.
+
+Lemma cleanup_claim_some a c name X : CohI a c -> aget name (c2p c) = Some X -> X <> "" ->
+  exists s cl, aget X (nodes c) = Some s /\ sn_claim s = Some cl /\ c_name cl = name /\
+    cleanup_claim name c =
+    with_c2p (match sn_node s with
+              | None => with_nodes (upr_c (Some s) None c) (adel X (nodes c))
+              | Some _ => with_nodes (upr_c (Some s) (Some (drop_claim s)) c) (aset X (drop_claim s) (nodes c))
+              end) (adel name (c2p c)).
+Proof.
+  intros H E Hx. destruct (ci_c2p _ _ H _ _ E Hx) as (s & cl & E1 & E2 & E3).
+  exists s, cl. repeat split; try assumption.
+  unfold cleanup_claim, sget. rewrite E. apply String.eqb_neq in Hx. rewrite Hx, E1.
+  pose proof (ci_np _ _ H) as P.
+  destruct (sn_node s) eqn:EN; c_simpl; rewrite P; [unfold drop_claim; rewrite EN|]; reflexivity.
+Qed.
+
+Lemma CohI_cleanup_claim a c name : CohI a c -> CohI a (cleanup_claim name c).
+Proof.
+  intros H.
+  destruct (sget name (c2p c) =s "") eqn:E0.
+  { seq. rewrite cleanup_claim_unlaunched, (ci_np _ _ H) by assumption.
+    assert (NotName : forall X s cl, aget X (nodes c) = Some s -> sn_claim s = Some cl -> c_name cl <> name).
+    { intros X s cl F1 F2 Hn. pose proof (ci_cback _ _ H _ _ _ F1 F2) as Hb. rewrite Hn in Hb.
+      unfold sget in E0. rewrite Hb in E0. eapply (ci_keys _ _ H); eauto. }
+    constructor; c_simpl; try apply H.
+    - intros k X. rewrite aget_adel. destruct (k =s name); [discriminate|]. eapply (ci_c2p _ _ H).
+    - intros X s cl F1 F2. rewrite aget_adel_other by (eapply NotName; eauto). eapply (ci_cback _ _ H); eauto.
+    - intros k X cl k'. rewrite aget_adel. destruct (k =s name); [discriminate|]. eapply (ci_own_c _ _ H).
+    - intros k X cl. rewrite aget_adel. destruct (k =s name); [discriminate|]. eapply (ci_launched _ _ H). }
+  assert (exists X, aget name (c2p c) = Some X /\ X <> "") as (X & E & Hx).
+  { unfold sget in E0. destruct (aget name (c2p c)) as [X|]; [|discriminate]. exists X. seq. auto. }
+  destruct (cleanup_claim_some a c name X H E Hx) as (s & cl & E1 & E2 & E3 & ->).
+  assert (Other : forall k' X', k' <> name -> aget k' (c2p c) = Some X' -> X' <> X).
+  { intros k' X' Hm E' ->. apply Hm. eapply ci_c2p_inj; eauto. }
+  destruct (sn_node s) as [nd|] eqn:EN.
+  - constructor; c_simpl.
+    + apply H.
+    + intros m X' F. destruct (ci_n2p _ _ H _ _ F) as (Hx' & s' & nd' & F1 & F2 & F3). split; [exact Hx'|].
+      rewrite aget_aset. destruct (X' =s X) eqn:Ex; seq.
+      * exists (drop_claim s), nd'. repeat split; [|exact F3]. simpl. congruence.
+      * exists s', nd'. auto.
+    + intros X' s' nd'. rewrite aget_aset. destruct (X' =s X) eqn:Ex; seq.
+      * intros [= <-]. simpl. intros F. eapply (ci_nback _ _ H); eauto.
+      * eapply (ci_nback _ _ H).
+    + intros k X'. rewrite aget_adel. destruct (k =s name) eqn:Ek; [discriminate|]. seq. intros F Hx'.
+      destruct (ci_c2p _ _ H _ _ F Hx') as (s' & cl' & F1 & F2 & F3).
+      exists s', cl'. rewrite aget_aset_other by (eapply Other; eauto). auto.
+    + intros X' s' cl'. rewrite aget_aset. destruct (X' =s X) eqn:Ex; seq.
+      * intros [= <-]. discriminate.
+      * intros F1 F2. rewrite aget_adel_other; [eapply (ci_cback _ _ H); eauto|].
+        intros Hn. pose proof (ci_cback _ _ H _ _ _ F1 F2) as Hb. rewrite Hn in Hb. congruence.
+    + intros X' s'. rewrite aget_aset. destruct (X' =s X) eqn:Ex; seq.
+      * intros [= <-]. unfold has_identity. simpl. rewrite EN. reflexivity.
+      * eapply (ci_ident _ _ H).
+    + intros X' s'. rewrite aget_aset. destruct (X' =s X) eqn:Ex; seq.
+      * intros _. eapply (ci_keys _ _ H); eauto.
+      * eapply (ci_keys _ _ H).
+    + eapply (ci_own_n _ _ H).
+    + intros k X' cl' k'. rewrite aget_adel. destruct (k =s name); [discriminate|]. eapply (ci_own_c _ _ H).
+    + eapply (ci_track _ _ H).
+    + intros k X' cl'. rewrite aget_adel. destruct (k =s name); [discriminate|]. eapply (ci_launched _ _ H).
+  - constructor; c_simpl.
+    + apply H.
+    + intros m X' F. destruct (ci_n2p _ _ H _ _ F) as (Hx' & s' & nd' & F1 & F2 & F3). split; [exact Hx'|].
+      exists s', nd'. rewrite aget_adel_other; [auto|]. intros ->. congruence.
+    + intros X' s' nd'. rewrite aget_adel. destruct (X' =s X); [discriminate|]. eapply (ci_nback _ _ H).
+    + intros k X'. rewrite aget_adel. destruct (k =s name) eqn:Ek; [discriminate|]. seq. intros F Hx'.
+      destruct (ci_c2p _ _ H _ _ F Hx') as (s' & cl' & F1 & F2 & F3).
+      exists s', cl'. rewrite aget_adel_other by (eapply Other; eauto). auto.
+    + intros X' s' cl'. rewrite aget_adel. destruct (X' =s X) eqn:Ex; seq; [discriminate|].
+      intros F1 F2. rewrite aget_adel_other; [eapply (ci_cback _ _ H); eauto|].
+      intros Hn. pose proof (ci_cback _ _ H _ _ _ F1 F2) as Hb. rewrite Hn in Hb. congruence.
+    + intros X' s'. rewrite aget_adel. destruct (X' =s X); [discriminate|]. eapply (ci_ident _ _ H).
+    + intros X' s'. rewrite aget_adel. destruct (X' =s X); [discriminate|]. eapply (ci_keys _ _ H).
+    + eapply (ci_own_n _ _ H).
+    + intros k X' cl' k'. rewrite aget_adel. destruct (k =s name); [discriminate|]. eapply (ci_own_c _ _ H).
+    + eapply (ci_track _ _ H).
+    + intros k X' cl'. rewrite aget_adel. destruct (k =s name); [discriminate|]. eapply (ci_launched _ _ H).
+Qed.
+
+(* ---- installing a Node / NodeClaim object under its provider id ---- *)
+Lemma epid_nonempty a m nd : api_ok a -> aget m (a_nodes a) = Some nd -> epid nd <> "" /\ n_name nd = m.
+Proof.
+  intros [(Hn & _ & _) (_ & _ & Hne)] E.
+  assert (n_name nd = m) as Hm by (apply (proj2 Hn); apply aget_in; exact E).
+  split; [|exact Hm]. unfold epid. destruct (n_pid nd =s "") eqn:Ep; seq; [|assumption].
+  rewrite Hm. eapply Hne; eauto.
+Qed.
+
+Lemma CohI_install_node a c nd n1 o1 o2 :
+  api_ok a -> aget (n_name nd) (a_nodes a) = Some nd -> trackable nd = true -> CohI a c ->
+  (aget (n_name nd) (n2p c) = None \/ aget (n_name nd) (n2p c) = Some (epid nd)) ->
+  sn_node n1 = Some nd ->
+  sn_claim n1 = match aget (epid nd) (nodes c) with Some o => sn_claim o | None => None end ->
+  CohI a (with_n2p (with_nodes (upr_c o1 o2 c) (aset (epid nd) n1 (nodes c))) (aset (n_name nd) (epid nd) (n2p c))).
+Proof.
+  intros Hok Ea Ht H Hn2p En Ec.
+  destruct (epid_nonempty a _ nd Hok Ea) as [Hpid _].
+  set (pid := epid nd) in *. set (name := n_name nd) in *.
+  (* no other name is cached under pid *)
+  assert (Own : forall m', aget m' (n2p c) = Some pid -> m' = name).
+  { intros m' F. symmetry. eapply (ci_own_n _ _ H m' pid nd name); eauto. }
+  constructor; c_simpl.
+  - apply H.
+  - intros m X. rewrite aget_aset. destruct (m =s name) eqn:Em; seq.
+    + intros [= <-]. split; [exact Hpid|]. exists n1, nd. rewrite aget_aset_same. auto.
+    + intros F. destruct (ci_n2p _ _ H _ _ F) as (Hx & s & nd' & F1 & F2 & F3). split; [exact Hx|].
+      exists s, nd'. rewrite aget_aset_other; [auto|]. intros ->. apply Em. apply Own. exact F.
+  - intros X s nd'. rewrite aget_aset. destruct (X =s pid) eqn:Ex; seq.
+    + intros [= <-]. rewrite En. intros [= <-]. apply aget_aset_same.
+    + intros F1 F2. pose proof (ci_nback _ _ H _ _ _ F1 F2) as Hb.
+      rewrite aget_aset_other; [exact Hb|]. intros Hn. fold name in Hn.
+      rewrite Hn in Hb. destruct Hn2p as [Q|Q]; rewrite Q in Hb; congruence.
+  - intros k X F Hx. destruct (ci_c2p _ _ H _ _ F Hx) as (s & cl & F1 & F2 & F3).
+    rewrite aget_aset. destruct (X =s pid) eqn:Ex; seq.
+    + exists n1, cl. rewrite Ec, F1. auto.
+    + exists s, cl. auto.
+  - intros X s cl. rewrite aget_aset. destruct (X =s pid) eqn:Ex; seq.
+    + intros [= <-]. rewrite Ec. destruct (aget pid (nodes c)) as [o|] eqn:Eo; [|discriminate].
+      intros F. eapply (ci_cback _ _ H); eauto.
+    + eapply (ci_cback _ _ H).
+  - intros X s. rewrite aget_aset. destruct (X =s pid) eqn:Ex; seq.
+    + intros [= <-]. unfold has_identity. rewrite En. reflexivity.
+    + eapply (ci_ident _ _ H).
+  - intros X s. rewrite aget_aset. destruct (X =s pid) eqn:Ex; seq.
+    + intros _. exact Hpid.
+    + eapply (ci_keys _ _ H).
+  - intros m X nd' m'. rewrite aget_aset. destruct (m =s name) eqn:Em; seq.
+    + intros [= <-] F1 F2 F3. destruct Hok as [_ (U & _ & _)]. eapply (U m' name nd' nd); eauto.
+    + eapply (ci_own_n _ _ H).
+  - eapply (ci_own_c _ _ H).
+  - intros m X nd'. rewrite aget_aset. destruct (m =s name) eqn:Em; seq.
+    + intros _ F. fold name in Ea. congruence.
+    + eapply (ci_track _ _ H).
+  - eapply (ci_launched _ _ H).
+Qed.
+
+Lemma claim_named a k cl : api_ok a -> aget k (a_claims a) = Some cl -> c_name cl = k.
+Proof. intros [(_ & Hc & _) _] E. apply (proj2 Hc). apply aget_in. exact E. Qed.
+
+Lemma CohI_install_claim a c cl n o1 o2 :
+  api_ok a -> aget (c_name cl) (a_claims a) = Some cl -> c_pid cl <> "" -> CohI a c ->
+  (aget (c_name cl) (c2p c) = None \/ aget (c_name cl) (c2p c) = Some (c_pid cl)) ->
+  sn_claim n = Some cl ->
+  sn_node n = match aget (c_pid cl) (nodes c) with Some o => sn_node o | None => None end ->
+  CohI a (with_c2p (with_nodes (upr_c o1 o2 c) (aset (c_pid cl) n (nodes c))) (aset (c_name cl) (c_pid cl) (c2p c))).
+Proof.
+  intros Hok Ea Hpid H Hc2p Ec En.
+  set (pid := c_pid cl) in *. set (name := c_name cl) in *.
+  assert (Own : forall k', aget k' (c2p c) = Some pid -> k' = name).
+  { intros k' F. symmetry. eapply (ci_own_c _ _ H k' pid cl name); eauto. }
+  constructor; c_simpl.
+  - apply H.
+  - intros m X F. destruct (ci_n2p _ _ H _ _ F) as (Hx & s & nd & F1 & F2 & F3). split; [exact Hx|].
+    rewrite aget_aset. destruct (X =s pid) eqn:Ex; seq.
+    + exists n, nd. rewrite En, F1. auto.
+    + exists s, nd. auto.
+  - intros X s nd. rewrite aget_aset. destruct (X =s pid) eqn:Ex; seq.
+    + intros [= <-]. rewrite En. destruct (aget pid (nodes c)) as [o|] eqn:Eo; [|discriminate].
+      intros F. eapply (ci_nback _ _ H); eauto.
+    + eapply (ci_nback _ _ H).
+  - intros k X. rewrite aget_aset. destruct (k =s name) eqn:Ek; seq.
+    + intros [= <-] _. exists n, cl. rewrite aget_aset_same. auto.
+    + intros F Hx. destruct (ci_c2p _ _ H _ _ F Hx) as (s & cl' & F1 & F2 & F3).
+      exists s, cl'. rewrite aget_aset_other; [auto|]. intros ->. apply Ek. apply Own. exact F.
+  - intros X s cl'. rewrite aget_aset. destruct (X =s pid) eqn:Ex; seq.
+    + intros [= <-]. rewrite Ec. intros [= <-]. apply aget_aset_same.
+    + intros F1 F2. pose proof (ci_cback _ _ H _ _ _ F1 F2) as Hb.
+      rewrite aget_aset_other; [exact Hb|]. intros Hn. fold name in Hn.
+      rewrite Hn in Hb. destruct Hc2p as [Q|Q]; rewrite Q in Hb; congruence.
+  - intros X s. rewrite aget_aset. destruct (X =s pid) eqn:Ex; seq.
+    + intros [= <-]. unfold has_identity. rewrite Ec. destruct (sn_node n); reflexivity.
+    + eapply (ci_ident _ _ H).
+  - intros X s. rewrite aget_aset. destruct (X =s pid) eqn:Ex; seq.
+    + intros _. exact Hpid.
+    + eapply (ci_keys _ _ H).
+  - eapply (ci_own_n _ _ H).
+  - intros k X cl' k'. rewrite aget_aset. destruct (k =s name) eqn:Ek; seq.
+    + intros [= <-] _ F1 F2. destruct Hok as [_ (_ & U & _)]. eapply (U k' name cl' cl); eauto; congruence.
+    + eapply (ci_own_c _ _ H).
+  - eapply (ci_track _ _ H).
+  - intros k X cl'. rewrite aget_aset. destruct (k =s name) eqn:Ek; seq.
+    + intros [= <-] _ F. fold name in Ea. assert (cl' = cl) by congruence. subst cl'. exact Hpid.
+    + eapply (ci_launched _ _ H).
 Qed.
